@@ -319,27 +319,27 @@ func runPrimBounds(c *hlib.Ctx) {
 	for i := 0; i < n; i++ {
 		p1 := rndPt3(c, 4)
 		dir := rndDir3(c)
-		p2 := p1.Add(dir.Scale(rndSize(c)))
+		q2 := p1.Add(dir.Scale(rndSize(c)))
 		r := rndSize(c)
 		switch i % 6 {
 		case 0:
 			axis := c.Rng.Intn(3)
 			sign := float64(1 - 2*c.Rng.Intn(2))
 			v := model3d.VerifCircleAxisBound(axis, dir, sign)
-			c.Emit(fmt.Sprintf("c03 cab f %d %s %s", axis, fpt(p3(dir)), num(sign)), num(v)+"/"+"")
+			c.Emit(fmt.Sprintf("c03 cab f %d %s %s", axis, fpt(p3(dir)), num(sign)), num(v))
 		case 1:
-			s := &model3d.Cylinder{P1: p1, P2: p2, Radius: r}
-			c.Emit(fmt.Sprintf("c03 cyl f %s %s %s", fpt(p1arr(p1)), fpt(p1arr(p2)), num(r)), fpt(p3(s.Min()))+" "+fpt(p3(s.Max())))
+			s := &model3d.Cylinder{P1: p1, P2: q2, Radius: r}
+			c.Emit(fmt.Sprintf("c03 cyl f %s %s %s", fpt(p1arr(p1)), fpt(p1arr(q2)), num(r)), fpt(p3(s.Min()))+" "+fpt(p3(s.Max())))
 		case 2:
-			s := &model3d.Cone{Tip: p1, Base: p2, Radius: r}
-			c.Emit(fmt.Sprintf("c03 cone f %s %s %s", fpt(p1arr(p1)), fpt(p1arr(p2)), num(r)), fpt(p3(s.Min()))+" "+fpt(p3(s.Max())))
+			s := &model3d.Cone{Tip: p1, Base: q2, Radius: r}
+			c.Emit(fmt.Sprintf("c03 cone f %s %s %s", fpt(p1arr(p1)), fpt(p1arr(q2)), num(r)), fpt(p3(s.Min()))+" "+fpt(p3(s.Max())))
 		case 3:
 			inner := r * c.Rng.Float64()
 			s := &model3d.Torus{Center: p1, Axis: dir, OuterRadius: r, InnerRadius: inner}
 			c.Emit(fmt.Sprintf("c03 torus f %s %s %s %s", fpt(p1arr(p1)), fpt(p3(dir)), num(r), num(inner)), fpt(p3(s.Min()))+" "+fpt(p3(s.Max())))
 		case 4:
-			s := &model3d.Capsule{P1: p1, P2: p2, Radius: r}
-			c.Emit(fmt.Sprintf("c03 capsule f 3 %s %s %s", fpt(p1arr(p1)), fpt(p1arr(p2)), num(r)), fpt(p3(s.Min()))+" "+fpt(p3(s.Max())))
+			s := &model3d.Capsule{P1: p1, P2: q2, Radius: r}
+			c.Emit(fmt.Sprintf("c03 capsule f 3 %s %s %s", fpt(p1arr(p1)), fpt(p1arr(q2)), num(r)), fpt(p3(s.Min()))+" "+fpt(p3(s.Max())))
 		default:
 			s := &model2d.Circle{Center: model2d.XY(p1.X, p1.Y), Radius: r}
 			c.Emit(fmt.Sprintf("c03 sphere f 2 %s %s", fpt(pt{p1.X, p1.Y, 0}), num(r)), fptD(p2(s.Min()), false)+" "+fptD(p2(s.Max()), false))
